@@ -134,6 +134,8 @@ def run_cmd(S, cmd):
     c = cmd['c']
     src = os.path.join(S, cmd['src'])
     if c == 'cp':
+        if not os.path.exists(src):
+            return 'missing-source', ''       # (only after the directory has diverged from the model)
         shutil.copyfile(src, os.path.join(S, cmd['dst']))
         return 0, ''
     if c == 'writep8':
@@ -199,6 +201,8 @@ def _history(item):
         cur = abstract(S)
         out.append({'rc': rc, 'err': err, 'fs': cur, 'prev': prev})
         prev = cur
+        if diff_fs(s['fs'], cur):
+            break           # the directory has diverged from the model: the later steps of this history are not comparable
     shutil.rmtree(S, ignore_errors=True)
     return out
 
